@@ -50,7 +50,13 @@ def endpoint_request(req):
 def gen(tier, seed):
     rng = random.Random(seed * 911 + 15)
     reqs = []
-    s_ok = [STATEMENTS[0], STATEMENTS[4]]
+    s_ok = [STATEMENTS[0], STATEMENTS[4], STATEMENTS[2], "A(Certifiers) D(must) {I(inspect) Bdir(operations) [XOR] {I(review) Bdir(records) [AND] I(file) Bdir(report)}} Cac(annually)"]
+    # every kind of statement through both pages with the default options: one table, several tables (component pairs
+    # expand into several top-level statements, one result entry each), nested statements, private properties
+    for st in STATEMENTS + s_ok[3:]:
+        for method in ("POST", "GET"):
+            reqs.append(tab_request(st, sid="123", opts={"igExtended": True, "includeHeaders": True}, fmt=rng.choice([GS, CSV]), method=method))
+            reqs.append(vis_request(st, opts={"binaryTree": True}, method=method))
     # every combination of the boolean parameters, both pages, POST and GET+execute
     for method in ("POST", "GET"):
         for bits in itertools.product([False, True], repeat=4):
